@@ -113,6 +113,22 @@ class World:
                         t.decl().name().startswith("comp!") and
                         self._comp_has_filter(t.decl().name())) else None
                     continue
+                if isinstance(a, tuple) and a[0] == "nth":
+                    # all_list P l  and  0 <= i < len l   ==>   P (nth l i)   for P = grammar
+                    # well-formedness of a list field (Lean: all_nth in FuncAdlLemmas.lean)
+                    t = a[1]
+                    if ("n", t.get_id()) in seen:
+                        continue
+                    seen.add(("n", t.get_id()))
+                    l, i = t.arg(0), t.arg(1)
+                    wfs = getattr(self, "wf", None)
+                    if wfs is not None:
+                        for ty, g in list(wfs.lists.items()):
+                            inner = wfs.typefact(ty, t)
+                            if S._is_node_type(ty):
+                                inner = z3.And(inner, wfs.f(t))
+                            out.append(z3.Implies(z3.And(g(l), i >= 0, i < S.len_l(l)), inner))
+                    continue
                 if isinstance(a, tuple):
                     t = a[1]
                     if ("c", t.get_id()) in seen:
@@ -122,6 +138,8 @@ class World:
                     out.append(S.len_l(t) == S.len_l(x) + S.len_l(y))
                     out.append(S.len_l(x) >= 0)
                     out.append(S.len_l(y) >= 0)
+                    out.append(S.is_nil(x) == (S.len_l(x) == 0))
+                    out.append(S.is_nil(y) == (S.len_l(y) == 0))
                     if z3.is_app(x) and x.decl().name() == "concat":
                         out.append(t == S.concat(x.arg(0), S.concat(x.arg(1), y)))
                     if z3.is_app(y) and y.decl().name() == "nil":
@@ -132,8 +150,11 @@ class World:
                 if a.get_id() in seen:
                     continue
                 seen.add(a.get_id())
+                out.append(S.is_nil(a) == (S.len_l(a) == 0))
                 for _ in range(depth + 1):
                     out.append(S.len_l(a) >= 0)
+                    # definition of length on a cons cell (Lean: List.length_cons)
+                    out.append(z3.Implies(S.is_cons(a), S.len_l(a) == 1 + S.len_l(S.tail(a))))
                     a = S.tail(a)
         return out
 
@@ -595,9 +616,10 @@ class Exec:
                         "list": P.is_PList(t), "tuple": P.is_PTuple(t),
                         "dict": P.is_PDict(t), "bytes": P.is_PBytes(t),
                         "NoneType": P.is_PNone(t),
-                        "complex": self.w.ufun("is_complex", S.Py, z3.BoolSort())(t)}.get(n) if n in (
+                        "complex": self.w.ufun("is_complex", S.Py, z3.BoolSort())(t),
+                        "ModuleType": self.w.ufun("is_module", S.Py, z3.BoolSort())(t)}.get(n) if n in (
                     "str", "int", "bool", "float", "list", "tuple", "dict", "bytes",
-                    "NoneType", "complex") else self._unsup(f"isinstance type {n}")
+                    "NoneType", "complex", "ModuleType") else self._unsup(f"isinstance type {n}")
         if isinstance(v, (Tup,)):
             return z3.BoolVal(c.kind == "type" and c.name == "tuple")
         if isinstance(v, CList):
@@ -624,7 +646,7 @@ class Exec:
                     items = []
                     for el in s_.value.elts:
                         if isinstance(el, ast.Name):
-                            items.append(self.resolve_global(el.id))
+                            items.append(self.lookup(el.id, {}))
                         elif isinstance(el, ast.Call) and isinstance(el.func, ast.Name) and \
                                 el.func.id == "type" and len(el.args) == 1 and \
                                 isinstance(el.args[0], ast.Constant) and el.args[0].value is None:
@@ -637,6 +659,8 @@ class Exec:
             if imp[0] == "module":
                 return Ref("module", imp[1])
             mod, attr = imp[1], imp[2]
+            if mod == "types" and attr == "ModuleType":
+                return Ref("type", "ModuleType")
             if mod == "typing":
                 if attr == "get_type_hints":
                     return Ref("libfunc", "typing.get_type_hints")
